@@ -557,3 +557,29 @@ def features(sc) -> set[str]:
     if sc.get("spelling") == "toml2":
         f.add("toml")
     return f
+
+
+def make_restartable(sc, f8: bool = True) -> dict:
+    """A run can only be continued from its output if the output holds the whole state:
+    every state variable becomes an output variable (premise of C08, used by C19 too)."""
+    from ladsim.world import state_types
+
+    sc.get("ibm", {}).pop("deact", None)     # the activity flag is not part of LADiM's restart state
+    sc.get("ibm", {}).pop("act", None)
+    out = sc["output"]
+    out.pop("layout", None)
+    f = "f8" if f8 else None
+    ivars, pvars, _ = state_types(sc)
+    for k in ("X", "Y", "Z"):
+        if f8:
+            out["ivars"][k] = "f8"
+    for name, t in ivars.items():
+        if name in ("lon", "lat"):
+            continue
+        cur = out["ivars"].get(name)
+        out["ivars"][name] = "i4" if t == "int" else (f or cur or "f8")
+    if pvars:
+        out.setdefault("pvars", {})
+        for name, t in pvars.items():
+            out["pvars"][name] = "f8" if t in ("time", "float") else "i4"
+    return sc
